@@ -71,6 +71,9 @@ impl SatSolver for BufferedSatSolver {
         self.listeners
             .iter()
             .for_each(|l| l.solving_start(self.n_vars(), self.n_clauses));
+        assumptions
+            .iter()
+            .for_each(|l| self.n_vars = usize::max(self.n_vars, usize::from(l.var())));
         let preamble = format!(
             "p cnf {} {}\n",
             self.n_vars,
